@@ -19,3 +19,65 @@ Theorem C15_everything_released :
     exists st, rrun [] tr = inl st /\ forall o c, In (o, c) st -> c <= 0.
 Proof. exact refs_check_no_leak. Qed.
 Print Assumptions C15_everything_released.
+
+(* ---- the ownership model (Owners.v): a heap of counted objects (FileRef, MmapRef,
+   Footer, SegmentStack, SnapshotWrapper) with the counted references each holds, the
+   roots (store footer, collection sections, lower-level snapshot, cached snapshot,
+   merger's and persister's temporaries) and every open user handle; one operation per
+   AddRef/DecRef sequence of the code, in code order (snapshots, child snapshots, store
+   snapshots, previous, iterators incl. re-creating SeekTo, batches, merger steps,
+   persistence incl. partial and full compaction, closes).  Five recorded AddRef/DecRef
+   traces of the real code equal the model's event for event (model_matches_recorded_trace1..5) *)
+From Moss Require Import Owners OwnersFacts.
+Close Scope Z_scope.
+Open Scope nat_scope.
+
+Theorem C15_ownership_invariant :
+  forall ops st, run ops = Some st ->
+  forall o, cnt_of (hp st) o = cn o (roots st) + cn o (allrefs (hp st)).
+Proof. exact ownership_invariant. Qed.
+Print Assumptions C15_ownership_invariant.
+
+Theorem C15_no_dangling_reference :
+  forall ops st, run ops = Some st ->
+  (forall o, In o (roots st) -> cnt_of (hp st) o > 0) /\
+  (forall a ob r, nth_error (hp st) a = Some ob -> In r (orefs ob) ->
+                  o_cnt ob > 0 /\ cnt_of (hp st) r > 0).
+Proof. exact no_dangling_reference. Qed.
+Print Assumptions C15_no_dangling_reference.
+
+Theorem C15_handle_data_alive :
+  forall ops st, run ops = Some st ->
+  forall hd r o, In hd (handles st) -> In r (hrefs hd) -> reach (hp st) r o ->
+    cnt_of (hp st) o > 0.
+Proof. exact handle_data_alive. Qed.
+Print Assumptions C15_handle_data_alive.
+
+Theorem C15_all_closed_all_released :
+  forall ops st,
+  run ops = Some st -> all_closed st -> leaked st = [] ->
+  (forall o, cnt_of (hp st) o = 0) /\ open_fds st = [] /\ mappings st = 0.
+Proof. exact all_closed_all_released. Qed.
+Print Assumptions C15_all_closed_all_released.
+
+(* what the model refuted about the pinned code - confirmed on the real code, then
+   repaired (F32 iterator borrowing its snapshot's stack, F33 leak on an error return,
+   F34 witness a) or listed (F31, witness b) *)
+Theorem C15_refuted_pre_fix_iterator_borrows_stack :
+  exists ops st, forallb no_ll_error ops = true /\ run ops = Some st /\ ~ borrow_safe st.
+Proof. exact iterator_borrow_safe_refuted. Qed.
+Print Assumptions C15_refuted_pre_fix_iterator_borrows_stack.
+
+Theorem C15_refuted_only_current_file_remains :
+  (exists st, forallb no_ll_error w_files_a = true /\ run w_files_a = Some st /\
+              all_closed st /\ stale_file st) /\
+  (exists st, forallb no_ll_error w_files_b = true /\ run w_files_b = Some st /\
+              all_closed st /\ stale_file st).
+Proof. exact only_current_file_refuted. Qed.
+Print Assumptions C15_refuted_only_current_file_remains.
+
+Theorem C15_refuted_pre_fix_leak_on_error_return :
+  exists st o, run w_leak = Some st /\ all_closed st /\
+               cnt_of (hp st) o > 0 /\ open_fds st <> [] /\ mappings st > 0.
+Proof. exact all_released_with_error_return_refuted. Qed.
+Print Assumptions C15_refuted_pre_fix_leak_on_error_return.
